@@ -1034,7 +1034,10 @@ def literal_value(node: ast.AST) -> bool:
             and not node.keywords  # Keyword arguments are not evaluated
         ):
             args = [literal_value(arg) for arg in node.args]
-            return getattr(builtins, node.func.id)(*args)
+            value = getattr(builtins, node.func.id)(*args)
+            if isinstance(value, range) and len(value) > 4096:
+                raise ValueError("Cannot find a deterministic value by iterating a huge range")
+            return value
 
     return ast.literal_eval(node)
 
